@@ -14,7 +14,7 @@ import hashlib, json, os, re, shutil, subprocess, sys, time
 from concurrent.futures import ThreadPoolExecutor
 
 ENV = dict(os.environ, GOFLAGS="-mod=mod", GOPROXY="off", GOSUMDB="off", GOTOOLCHAIN="local")
-VERIF = os.path.abspath(os.path.join(os.path.dirname(__file__), ".."))
+VERIF = os.environ.get("AUTOMUT_VERIF") or os.path.abspath(os.path.join(os.path.dirname(__file__), ".."))  # AUTOMUT_VERIF: a frozen copy of /verif to run the checks from
 ORDER = "C04 C13 C12 C20 C02 C17 C16 C01 C07 C10 C11 C19 C14 C08 C09 C05 C15 C03 C06 C18".split()
 
 OPS = [(r"(?<![=!<>])==(?!=)", "!="), (r"!=", "=="), (r"(?<![<\-])<(?![<=\-])", "<="), (r"(?<![>\-=])>(?![>=])", ">="),
@@ -168,6 +168,11 @@ def main():
         step = len(idxs) / float(mx)
         idxs = sorted(set(int(i * step) for i in range(mx)))
     idxs = [i for i in idxs if i not in done]
+    if "--rerun-survivors" in args:
+        # only the sites an earlier run (same flags) recorded as surviving the suite
+        prev = args[args.index("--rerun-survivors") + 1]
+        want = set(json.loads(l)["n"] for l in open(prev) if json.loads(l)["status"] == "survives-suite")
+        idxs = sorted(want)
     print("sites: %d total, %d to run, %d jobs" % (len(all_sites), len(idxs), jobs), flush=True)
     workers = max(2, 16 // jobs)
     with ThreadPoolExecutor(jobs) as ex, open(out_path, "a") as fo:
